@@ -5,6 +5,19 @@
   `__init__` / `update` / `sat` replaced by the parent's bodies), against the `.predSat c` clause of the mirror `stepOn`
   (`Rtamt/Dense/AlgOn.lean`).
 
+  * pieces of the two generated bodies (`IA_body`, `IA_init_body` by `rfl`), one-iteration lemmas and loops of the inlined
+    `update` (`updLoop_spec`), of the inlined `sat` (`satLoop_spec` against `satGo`) and of the output loop
+    (`outLoop_spec`);
+  * `GOnIA.IAPredRel c st o`: the object against the record `BinSt` of its nested `SubtractionOperation`;
+  * `gen_iapred_init` / `gen_iapred_construct`, `gen_iapred_update`, `gen_iapred_updateObj_on` (against `iaPredUpdateOn`: no
+    hypothesis), `gen_iapred_updateObj` / `gen_iapredop_updateObj` (against the mirror clause `iaPredUpdate`,
+    `stepOn_predSat`): values and exceptions, fuel `GOnBin.binFuel st sl sr`.
+
+  Finding: for `!=` the online `sat()` computes `False if d == 0 else True` (`satOn`), the mirror's `satOfDiff .ne` is
+  `abs(d) > 0` (the offline visitor's test).  They agree on every double; for an abstract value type the law
+  `SatNeLaw` (on differences) is needed - it follows from `hcmp` of C06 (`satNeLaw_of_hcmp`).  The kept positions
+  (`rval != prev or i == len(input_list) - 1`) are those of `dedupGoK`.
+
   Helper lemmas live in `Rtamt.Py.DnOn.GOnIA`; main theorems in `Rtamt.Py.DnOn`.
 -/
 import RtamtProofs.GenDenseOnBin
